@@ -2,7 +2,7 @@
     absorbed.  Statements only; proofs are in Sink/Proofs.v and
     Sink/ReaderProofs.v, the models in Sink/Model.v and Sink/Reader.v. *)
 From Coq Require Import List NArith Bool Arith Lia.
-From PQ Require Import Sink.Model Sink.Proofs Sink.Reader Sink.ReaderProofs.
+From PQ Require Import Sink.Model Sink.Proofs Sink.Termination Sink.Reader Sink.ReaderProofs.
 Import ListNotations.
 Open Scope N_scope.
 
@@ -55,9 +55,28 @@ Section Writer.
   Qed.
 End Writer.
 
+(** The fuelled loops of the model (bufio.Writer.Write/WriteString,
+    memory.Buffer.WriteTo) end by their own exit condition under the fault
+    model: the value the model would give on fuel exhaustion (io.ErrShortWrite)
+    is never produced — an error returned by Write is the sticky error of the
+    bufio.Writer, and more fuel does not change the result of WriteTo. *)
+Theorem C14_model_loops_terminate : forall (A : Type),
+  (forall direct (s : sink A) (b : bufw A) p s' b' n e,
+     wf_sink A s -> wf_buf A b -> 1 <= b_size b ->
+     bufio_write_gen A direct s b p = (s', b', n, e) -> e = b_err b') /\
+  (forall w, w = otw_write A true \/ w = lower_write A ->
+     forall (c : list A) (t : st A) k, wf_st A t ->
+     retry A w (length c + 2) t c = retry A w (length c + 2 + k) t c).
+Proof.
+  intros A. split.
+  - exact (bufio_write_gen_error_is_sticky A).
+  - exact (write_to_fuel_enough A).
+Qed.
+
 Print Assumptions C14_all_sites_checked.
 Print Assumptions C14_close_nil_means_complete.
 Print Assumptions C14_sink_fault_surfaces.
+Print Assumptions C14_model_loops_terminate.
 
 (** The readAt wrapper (file.go:1708): for every answer (n, err) of an
     io.ReaderAt that honours its contract (n < len(p) => err != nil) the wrapper
